@@ -308,8 +308,26 @@ func (fv *FV) usesBag() bool {
 	}
 	if fv.bagUse == 0 {
 		fv.bagUse = 1
-		if strings.Contains(fv.pc.Text, "bag(") {
-			fv.bagUse = 2
+		// the function's own contract (any clause) talks about bag(...)
+		var texts []string
+		for _, c := range fv.fc.Requires {
+			texts = append(texts, c.Src)
+		}
+		for _, c := range fv.fc.Ensures {
+			texts = append(texts, c.Src)
+		}
+		for _, l := range fv.fc.Loops {
+			for _, c := range l.Invariants {
+				texts = append(texts, c.Src)
+			}
+		}
+		for _, g := range fv.fc.Ghosts {
+			texts = append(texts, g.Src)
+		}
+		for _, t := range texts {
+			if strings.Contains(t, "bag(") || strings.Contains(t, "bagadd(") {
+				fv.bagUse = 2
+			}
 		}
 	}
 	return fv.bagUse == 2
